@@ -97,14 +97,21 @@ class Ctx:
         r = self.result_val
         return r.term if isinstance(r, Val) else r
 
-    # generator output
+    # generator output: of the called generator at a call site, else of the function under verification
     @property
     def out_set(self):
+        if self.extra.get("$out_set") is not None:
+            return self.extra["$out_set"]
         return self.st.ghost["$out_set"].term
 
     @property
     def out_count(self):
+        if self.extra.get("$out_count") is not None:
+            return self.extra["$out_count"]
         return self.st.ghost["$out_count"].term
+
+    out_set_call = out_set
+    out_count_call = out_count
 
     @property
     def out_seq(self):
@@ -154,6 +161,9 @@ class Engine:
         if heap is None and field in self.trace_fields:
             st.events.append({"ev": "heap", "op": "read", "field": field, "oid": ref.oid, "perms": tuple(st.perms)})
         if key in st.heap:
+            return st.heap[key]
+        if key in st.old_heap:   # initial value already materialised on another path: initial values are path-independent
+            st.heap[key] = st.old_heap[key]
             return st.heap[key]
         shape = self.reg.shapes.get(ref.shape)
         if shape is None or field not in shape.fields:
@@ -709,6 +719,36 @@ class Engine:
         if not node.keys:
             return [(OK, st, ListVal([]))]  # empty literal: typed on assignment
         raise Unsupported("dict literal")
+
+    def e_ListComp(self, node, st):
+        """[f(x) for x in seq]  (no filter): a sequence of the same length, element-wise image."""
+        if len(node.generators) != 1 or node.generators[0].ifs or node.generators[0].is_async:
+            raise Unsupported("list comprehension with filter / nesting")
+        g = node.generators[0]
+
+        def k(s, it):
+            if isinstance(it, (ListVal, TupleVal)):
+                results = [(OK, s, [])]
+                for item in it.items:
+                    def step(s2, acc, item=item):
+                        return bind(bind(self.assign_target(g.target, item, s2), lambda s3, _v: self.eval(node.elt, s3)),
+                                    lambda s4, v: [(OK, s4, acc + [v])])
+                    results = bind(results, step)
+                return bind(results, lambda s2, vs: [(OK, s2, ListVal(vs))])
+            if isinstance(it, Val) and isinstance(it.ty, SeqT):
+                kk = z3.Int(fresh_name("lc"))
+                s2 = s.fork()
+                res = bind(self.assign_target(g.target, Val(it.term[kk], it.ty.elem), s2), lambda s3, _v: self.eval(node.elt, s3))
+                if len(res) != 1 or res[0][0] != OK or not isinstance(res[0][2], Val):
+                    raise Unsupported("branching list comprehension body")
+                elt = res[0][2]
+                rty = SeqT(elt.ty)
+                r = z3.Const(fresh_name("lcres"), rty.sort())
+                s.assume(z3.Length(r) == z3.Length(it.term))
+                s.assume(z3.ForAll([kk], z3.Implies(z3.And(kk >= 0, kk < z3.Length(it.term)), r[kk] == elt.term)))
+                return [(OK, s, Val(r, rty))]
+            raise Unsupported(f"list comprehension over {it!r}")
+        return bind(self.eval(g.iter, st), k)
 
     def e_Starred(self, node, st):
         raise Unsupported("starred expression")
